@@ -98,7 +98,7 @@ claim('C04', 'translation_validation',
 
 claim('C03', 'translation_validation',
       'For every unit-generator class whose audio constructor delegates directly to the generic expansion (8 classes '
-      'quick, all 127 found by introspection thorough), for arithmetic operators between units, channel lists, plain '
+      'quick, all 105 found by introspection thorough), for arithmetic operators between units, channel lists, plain '
       'lists and numbers (reflected forms included) and for 10 ChannelList convenience methods: every combination of '
       'argument shapes (scalar, lists of 1..3, two ragged nestings) is built twice by the real SynthDef -- once as the '
       'multichannel call and once as the single-channel calls the wrap-and-zip law prescribes -- and the two decoded '
